@@ -474,7 +474,11 @@ class JSON(Term):
         return format_quotes(value, quote_char)
 
     def get_sql(self, ctx: SqlContext) -> str:
-        sql = format_quotes(self._recursive_get_sql(self.value), ctx.secondary_quote_char)
+        json_text = self._recursive_get_sql(self.value)
+        if ctx.dialect == Dialects.MYSQL:
+            # MySQL reads a backslash inside a string literal as an escape character
+            json_text = json_text.replace("\\", "\\\\")
+        sql = format_quotes(json_text, ctx.secondary_quote_char)
         return format_alias_sql(sql, self.alias, ctx)
 
     def get_json_value(self, key_or_index: str | int) -> "BasicCriterion":
